@@ -1,8 +1,211 @@
 /-
-C17 — Layout part (theorems). See reports/C17.md.
+C17 (layout part) — subsetting the OpenType layout COMMON tables and GDEF preserves what they say about
+the glyphs that are kept; GSUB / GPOS are NOT subset by klippa (pass-through), which is characterised
+at the end.
+
+Models: `FontVerif/Model/SubsetLayout.lean` (klippa `layout.rs`: Coverage / ClassDef subsetters and
+writers, post-fix 546e1a4), `FontVerif/Model/SubsetGdef.lean` (klippa `gdef.rs` + the plan side of
+`lib.rs`, post-fix 507034d / 87f42c2).  Reader side: C16's models of read-fonts `CoverageTable::get`
+and `ClassDef::get` (binary searches) in `FontVerif/Model/Layout.lean`, C11's `computeDelta` for the
+variation store.  The theorems are stated on the structured written tables (`CovW.toCoverage`,
+`Layout.ClassDef`, `GdefOut`); their byte images (`CovW.bytes`, `classDefBytes`, `encodeGdef`) are
+tied to the real output by the byte-exact correspondence runs of `harness/src/bin/c17/layoutx.rs`.
+
+"Kept" means kept FOR LAYOUT: a key of `plan.glyph_map_gsub` (= `glyphset_gsub`: requested glyphs,
+cmap closure, .notdef — klippa has no GSUB closure).  Glyphs that are only kept as composite
+components or COLR layers are not in that set and lose their GDEF data (as in HarfBuzz).
 -/
-import FontVerif.Model.Base
+import FontVerif.Model.SubsetGdef
+import FontVerif.Lemmas.SubsetLayout
+set_option linter.unusedVariables false
 namespace FontVerif.C17Layout
-open FontVerif
+open FontVerif FontVerif.Layout FontVerif.SubsetLayout
+
+/-! ## 1. Coverage -/
+
+/-- a coverage table as the specification requires it: glyph array strictly ascending / range
+records ascending, disjoint, with running start coverage indices; every covered glyph exists -/
+def CovOk (p : LPlan) : Coverage → Prop
+  | .fmt1 xs => xs.Pairwise (· < ·) ∧ ∀ g ∈ xs, g < p.numGlyphs ∧ g < 65536
+  | .fmt2 rs => WFRanges 0 rs ∧ ∀ g ∈ expandRanges rs, g < p.numGlyphs ∧ g < 65536
+
+/-- the glyph is kept for layout -/
+def kept (p : LPlan) (g : Nat) : Bool := (p.get g).isSome
+
+theorem CovOk.sorted {p : LPlan} {c : Coverage} (hc : CovOk p c) : c.glyphs.Pairwise (· < ·) := by
+  cases c with
+  | fmt1 xs => exact hc.1
+  | fmt2 rs => exact wf_expand_sorted hc.1
+
+theorem CovOk.get_eq {p : LPlan} {c : Coverage} (hc : CovOk p c) (g : Nat) :
+    c.get g = indexIn g c.glyphs := by
+  cases c with
+  | fmt1 xs => exact get_fmt1 hc.1 (fun x hx => (hc.2 x hx).2) g
+  | fmt2 rs =>
+    apply get_fmt2 hc.1
+    intro r hr
+    have hse := wf_start_le_end hc.1 r hr
+    exact (hc.2 r.end_ (mem_expandRanges.mpr ⟨r, hr, hse, Nat.le_refl _⟩)).2
+
+theorem covRetained_eq {p : LPlan} (hp : PlanOk p) {c : Coverage} (hc : CovOk p c) :
+    covRetained p c = .ok (c.glyphs.filterMap p.get) := by
+  cases c with
+  | fmt1 xs =>
+    simp only [covRetained, Coverage.glyphs]
+    rw [cov1Retained_eq hp hc.1]; rfl
+  | fmt2 rs =>
+    simp only [covRetained, Coverage.glyphs]
+    exact cov2Retained_eq hp hc.1 (fun g hg => (hc.2 g hg).1)
+
+/-- the whole behaviour of `CoverageTable::subset` on a well-formed table: nothing retained =
+`Err(EMPTY)`; otherwise a table whose glyphs are the new ids of the kept covered glyphs in coverage
+order and on which read-fonts' `get` (binary search) answers "position in that list" -/
+theorem subsetCoverage_spec {p : LPlan} (hp : PlanOk p) {c : Coverage} (hc : CovOk p c)
+    (hsmall : (c.glyphs.filterMap p.get).length < 65536) :
+    (c.glyphs.filterMap p.get = [] ∧ subsetCoverage p c = .error .empty) ∨
+    ∃ w, subsetCoverage p c = .ok w ∧ w.toCoverage.glyphs = c.glyphs.filterMap p.get ∧
+      ∀ n, w.toCoverage.get n = indexIn n (c.glyphs.filterMap p.get) := by
+  unfold subsetCoverage
+  rw [covRetained_eq hp hc]
+  by_cases he : c.glyphs.filterMap p.get = []
+  · left
+    refine ⟨he, ?_⟩
+    simp [he, bind, Except.bind, throw, throwThe, MonadExceptOf.throw]
+  · right
+    have hlt : ∀ x ∈ c.glyphs.filterMap p.get, x < 65536 := by
+      intro x hx
+      obtain ⟨g, _, e⟩ := List.mem_filterMap.mp hx
+      exact (hp.get_lt e).1
+    obtain ⟨w, hw, hg, hget⟩ := serializeCoverage_get he (kept_sorted hp hc.sorted) hlt hsmall
+    refine ⟨w, ?_, hg, hget⟩
+    have : (c.glyphs.filterMap p.get).isEmpty = false := by
+      cases h : c.glyphs.filterMap p.get with
+      | nil => exact absurd h he
+      | cons _ _ => rfl
+    simp [bind, Except.bind, this, hw]
+
+/-- **coverage_subset_glyphs**: the glyphs of the subset coverage are exactly
+`{ glyph_map g | g covered, g kept }`, in ascending order (= coverage order of the original) -/
+theorem coverage_subset_glyphs {p : LPlan} (hp : PlanOk p) {c : Coverage} (hc : CovOk p c)
+    (hsmall : (c.glyphs.filterMap p.get).length < 65536) {w : CovW}
+    (h : subsetCoverage p c = .ok w) :
+    w.toCoverage.glyphs = c.glyphs.filterMap p.get ∧ w.toCoverage.glyphs.Pairwise (· < ·) ∧
+    ∀ n, n ∈ w.toCoverage.glyphs ↔ ∃ g, g ∈ c.glyphs ∧ p.get g = some n := by
+  rcases subsetCoverage_spec hp hc hsmall with ⟨_, he⟩ | ⟨w', hw', hg, _⟩
+  · rw [he] at h; cases h
+  · rw [hw'] at h; injection h with h; subst h
+    refine ⟨hg, ?_, ?_⟩
+    · rw [hg]; exact kept_sorted hp hc.sorted
+    · intro n; rw [hg]; simp [List.mem_filterMap]
+
+/-- **coverage_subset_get**: through read-fonts' reader: the coverage index of the image of a kept
+glyph is the rank of the glyph among the kept covered glyphs (`none` when the glyph is not covered);
+an id that is not the image of a kept covered glyph is not covered. -/
+theorem coverage_subset_get {p : LPlan} (hp : PlanOk p) {c : Coverage} (hc : CovOk p c)
+    (hsmall : (c.glyphs.filterMap p.get).length < 65536) {w : CovW}
+    (h : subsetCoverage p c = .ok w) :
+    (∀ g n, p.get g = some n →
+      w.toCoverage.get n = indexIn g (c.glyphs.filter (kept p))) ∧
+    (∀ g n i, p.get g = some n → c.get g = some i →
+      w.toCoverage.get n = some ((c.glyphs.take i).countP (kept p))) ∧
+    (∀ n, (∀ g, g ∈ c.glyphs → p.get g ≠ some n) → w.toCoverage.get n = none) := by
+  rcases subsetCoverage_spec hp hc hsmall with ⟨_, he⟩ | ⟨w', hw', hg, hget⟩
+  · rw [he] at h; cases h
+  · rw [hw'] at h; injection h with h; subst h
+    have h1 : ∀ g n, p.get g = some n →
+        w'.toCoverage.get n = indexIn g (c.glyphs.filter (kept p)) := by
+      intro g n hgn
+      rw [hget n]
+      exact indexIn_filterMap p.get g n hgn c.glyphs (fun a _ ha => hp.get_inj ha hgn)
+    refine ⟨h1, ?_, ?_⟩
+    · intro g n i hgn hci
+      rw [h1 g n hgn]
+      rw [hc.get_eq] at hci
+      exact indexIn_filter (kept p) c.glyphs g i hci (by simp [kept, hgn])
+    · intro n hn
+      rw [hget n]
+      apply indexIn_none
+      intro hm
+      obtain ⟨g, hg', e⟩ := List.mem_filterMap.mp hm
+      exact hn g hg' e
+
+/-- **coverage_subset_index_order_preserved**: the coverage indices of kept glyphs keep their
+relative order (the new index of a glyph is the number of kept covered glyphs before it) -/
+theorem coverage_subset_index_order_preserved {p : LPlan} (hp : PlanOk p) {c : Coverage}
+    (hc : CovOk p c) (hsmall : (c.glyphs.filterMap p.get).length < 65536) {w : CovW}
+    (h : subsetCoverage p c = .ok w) {g1 g2 n1 n2 i1 i2 j1 j2 : Nat}
+    (k1 : p.get g1 = some n1) (k2 : p.get g2 = some n2)
+    (c1 : c.get g1 = some i1) (c2 : c.get g2 = some i2)
+    (s1 : w.toCoverage.get n1 = some j1) (s2 : w.toCoverage.get n2 = some j2) :
+    i1 < i2 ↔ j1 < j2 := by
+  have hs := (coverage_subset_get hp hc hsmall h).2.1
+  have e1 := hs g1 n1 i1 k1 c1
+  have e2 := hs g2 n2 i2 k2 c2
+  rw [s1] at e1; rw [s2] at e2
+  injection e1 with e1; injection e2 with e2
+  rw [hc.get_eq] at c1 c2
+  have q1 : kept p g1 = true := by simp [kept, k1]
+  have q2 : kept p g2 = true := by simp [kept, k2]
+  constructor
+  · intro hlt
+    rw [e1, e2]
+    exact countP_take_lt (kept p) c.glyphs (indexIn_getElem? c1) q1 hlt
+  · intro hlt
+    rcases Nat.lt_trichotomy i1 i2 with hh | hh | hh
+    · exact hh
+    · subst hh; omega
+    · have := countP_take_lt (kept p) c.glyphs (indexIn_getElem? c2) q2 hh
+      omega
+
+/-- **parallel_array_alignment**: an array indexed by coverage index (attachment points, ligature
+glyphs, later the substitute array of a SingleSubst format 2, …) that is restricted by the same
+"glyph kept" filter as the coverage stays aligned with it: the entry at the new coverage index of
+`glyph_map g` is the entry the original held at the coverage index of `g`. -/
+theorem parallel_array_alignment {α : Type} {p : LPlan} (hp : PlanOk p) {c : Coverage}
+    (hc : CovOk p c) (hsmall : (c.glyphs.filterMap p.get).length < 65536) {w : CovW}
+    (h : subsetCoverage p c = .ok w) (arr : List α) {g n i : Nat}
+    (hk : p.get g = some n) (hi : c.get g = some i) :
+    ∃ j, w.toCoverage.get n = some j ∧
+      ((c.glyphs.zip arr).filterMap (fun x => if kept p x.1 then some x.2 else none))[j]? = arr[i]? := by
+  refine ⟨_, (coverage_subset_get hp hc hsmall h).2.1 g n i hk hi, ?_⟩
+  rw [hc.get_eq] at hi
+  exact aligned (kept p) c.glyphs arr g i hi (by simp [kept, hk])
+
+/-- **coverage_empty_iff_no_kept_glyph**: `CoverageTable::subset` returns `Err(EMPTY)` exactly when
+no covered glyph is kept (every caller then omits the table), and succeeds otherwise -/
+theorem coverage_empty_iff_no_kept_glyph {p : LPlan} (hp : PlanOk p) {c : Coverage} (hc : CovOk p c)
+    (hsmall : (c.glyphs.filterMap p.get).length < 65536) :
+    (subsetCoverage p c = .error .empty ↔ ∀ g ∈ c.glyphs, p.get g = none) ∧
+    ((∃ g ∈ c.glyphs, kept p g = true) → ∃ w, subsetCoverage p c = .ok w) := by
+  have hnil : c.glyphs.filterMap p.get = [] ↔ ∀ g ∈ c.glyphs, p.get g = none := by
+    rw [List.filterMap_eq_nil_iff]
+  rcases subsetCoverage_spec hp hc hsmall with ⟨he, hr⟩ | ⟨w, hw, hg, _⟩
+  · refine ⟨⟨fun _ => hnil.mp he, fun _ => hr⟩, ?_⟩
+    rintro ⟨g, hg, hk⟩
+    have := hnil.mp he g hg
+    simp [kept, this] at hk
+  · refine ⟨⟨fun h => (by rw [hw] at h; cases h), fun hall => ?_⟩, fun _ => ⟨w, hw⟩⟩
+    exfalso
+    have hne : w.toCoverage.glyphs = [] := by rw [hg]; exact hnil.mpr hall
+    -- the writer is only reached with a non-empty list
+    unfold subsetCoverage at hw
+    rw [covRetained_eq hp hc, hnil.mpr hall] at hw
+    simp [bind, Except.bind, throw, throwThe, MonadExceptOf.throw] at hw
+
+/-- non-vacuity: the hypotheses hold for a compact renumbering {0↦0, 4↦1, 5↦2, 9↦3} of a 12-glyph
+font and the format 2 coverage 3..=6, 9; the subset then covers 1, 2, 3 -/
+def exPlan : LPlan := { glyphset := [0, 4, 5, 9], gmap := [(0, 0), (4, 1), (5, 2), (9, 3)], numGlyphs := 12 }
+def exCov : Coverage := .fmt2 [⟨3, 6, 0⟩, ⟨9, 9, 4⟩]
+
+example : PlanOk exPlan :=
+  ⟨by decide, by simp [exPlan], by simp [exPlan], by simp [exPlan]⟩
+
+example : CovOk exPlan exCov := by
+  refine ⟨by simp [WFRanges], ?_⟩
+  simp [expandRanges, RangeRec.glyphs, List.range', exPlan]
+
+example : (match subsetCoverage exPlan exCov with
+    | .ok w => some w.toCoverage
+    | .error _ => none) = some (.fmt1 [1, 2, 3]) := by decide +kernel
 
 end FontVerif.C17Layout
